@@ -168,7 +168,7 @@ def run_c15(tier, seed):
                       "a batch is judged when all promises are settled or the server has been idle for 3 s x load; every batch runs in a forked child under a 25 s x load watchdog (a wedged client is a witness)",
                       "Experimental::Client has no pipelining and cannot resume a partial send: request bodies stay below the socket buffer"]
     return _finish(v, work, counters, distinct, samples, stats,
-                   "batches of 1-64 requests issued at once - from one application thread or from 2-6 threads released together - through one Experimental::Client (1-4 threads, maxConnectionsPerHost 1-8, so queueing behind the limit is the norm); in all-answering batches 400 further stampede rounds follow in which 3-10 threads (half of the time more than there are connections) call send() at the same instant on an idle pool (requests built beforehand, spin barrier); to a scripted server whose behaviour per request is immediate / delayed / byte-dribbled / chunked / close-after-response / never-answered (client time-out 400 ms) / answered after the client's time-out, plus a scripted batch in which a late answer and the expiry of another request's time-out reach the client in one poll result, and a run of 140 time-outs in a row on one connection followed by answered requests; per-promise settle counters, echoed tags, server-side request log with connection ids, peak simultaneous connections. distinct = (threads, limit, over-limit?, scenario, batch size class)")
+                   "batches of 1-64 requests issued at once - from one application thread or from 2-6 threads released together - through one Experimental::Client (1-4 threads, maxConnectionsPerHost 1-8, so queueing behind the limit is the norm); in all-answering batches 400 further stampede rounds follow in which 3-10 threads (half of the time more than there are connections) call send() at the same instant on an idle pool (requests built beforehand, spin barrier); to a scripted server whose behaviour per request is immediate / delayed / byte-dribbled / chunked / close-after-response / never-answered (client time-out 400 ms) / answered after the client's time-out, plus a scripted batch in which a late answer and the expiry of another request's time-out reach the client in one poll result, a run of 140 time-outs in a row on one connection followed by answered requests, and one client talking to TWO hosts (one connection each, requests queued for both) while one host never answers: the other host's queue has to be served before that request times out (judged by the order of the two events); per-promise settle counters, echoed tags, server-side request log with connection ids, peak simultaneous connections. distinct = (threads, limit, over-limit?, scenario, batch size class)")
 
 def run_c02(tier, seed):
     v = vlib.Verdict("C02", tier, seed, level="exploration")
